@@ -263,6 +263,14 @@ func (s *Service) trafficInit() error {
 		return err
 	}
 
+	// peers known only through their cheques must be restored too
+	for addr := range lastCheques {
+		allRetrieveTransfer[addr] = struct{}{}
+	}
+	for addr := range lastTransCheques {
+		allRetrieveTransfer[addr] = struct{}{}
+	}
+
 	addressList, err := s.getAllAddress(allRetrieveTransfer)
 	if err != nil {
 		return fmt.Errorf("traffic: Failed to get chain node information:%v ", err)
